@@ -396,7 +396,10 @@ theorem garbage_block_never_traps (env : Env) (s : State) (blob : String) (rest 
 theorem garbage_header_never_traps (env : Env) (s : State) (raw : String) (rest : List String)
     (h : env.dec.header raw = none) :
     insertNextHeaders env s (raw :: rest) = some s := by
-  simp only [insertNextHeaders, h]
+  unfold insertNextHeaders
+  cases env.headerSlots with
+  | zero => simp only [List.take_zero, insertNextHeadersAll]
+  | succ k => simp only [List.take_succ_cons, insertNextHeadersAll, h]
 
 /-- a response consisting only of undecodable bytes: the heartbeat's processing step succeeds, the
     only effects are the consumed response and one counter -/
